@@ -452,7 +452,10 @@ def r_multiorigin_init(ck: Checker, rule: str = "R-MERGE-FLAT") -> None:
         if pos[-1:] != ["PositionSet(tuple((_b0.position for _b0 in self.origins)))"]:
             bad.append(f"position is {pos}")
         if common is None:
-            bad.append("source chosen without the common-source test")
+            if src[-1:] in (["self.origins[0].source"], ["SourceSet(tuple((_b0.source for _b0 in self.origins)))"]):
+                bad.append(f"source chosen without the common-source test (always {src[-1]})")
+            else:
+                raise Unsupported(f"MultiOrigin.__post_init__: how the source {src[-1:] or '?'} is chosen was not recognised", m.node)
         elif common and src[-1:] != ["self.origins[0].source"]:
             bad.append(f"common source: source is {src}")
         elif not common and src[-1:] != ["SourceSet(tuple((_b0.source for _b0 in self.origins)))"]:
@@ -501,6 +504,8 @@ def run(ck: Checker) -> None:
     from . import state_rules as S_
     ck.guard("R-MERGE-FLAT", lambda: S_.r_unstable_key(ck, "R-MERGE-FLAT", [(ORIGIN, "merge_origins"), (ORIGIN, "concat_origins"), (ORIGIN, "MultiOrigin.__post_init__"), (ORIGIN, "CodeOrigin.__add__"), (ORIGIN, "Origin.__add__")], "the result lists the operands of this call"))
     ck.guard("R-SLICE", lambda: r_slice(ck))
+    from . import state_rules as S15
+    ck.guard("R-INTERVAL-LAWS", lambda: S15.r_no_raw_construction(ck, "R-INTERVAL-LAWS", ORIGIN, ("CodePoint", "CodeRange", "CodeOrigin", "MultiOrigin")))
     from .c10 import r_operand_alias_mutation
     ck.guard("R-MERGE-FLAT", lambda: r_operand_alias_mutation(ck, "R-MERGE-FLAT"))  # a + b leaves a and b as they were
     ck.require_count("R-INTERVAL-LAWS", 12)
